@@ -288,6 +288,22 @@ def correspondence(pid, tier, seed, ev, violations, replay_case=None):
     if race:
         env["GORACE"] = "halt_on_error=0 log_path=%s" % os.path.join(rundir, "race")
     rc, out = sh(cmd, env=env, timeout=7200)
+    if race and rc == 0 and not replay_case:
+        # the deterministic re-entrancy part again in the binary without the race detector
+        rundir2 = rundir + "_norace"
+        shutil.rmtree(rundir2, ignore_errors=True)
+        os.makedirs(rundir2)
+        rcb, outb = build_harness(race=False)
+        if rcb == 0:
+            env2 = dict(GOENV, VERIF_C09_REENTRANT_ONLY="1")
+            rc2, out2 = sh([os.path.join(BUILD, "hx"), "-prop", pid, "-tier", tier, "-seed", str(seed), "-out", rundir2], env=env2, timeout=3600)
+            if rc2 == 0:
+                sp2 = (json.load(open(os.path.join(rundir2, "stats.json"))).get("special") or {})
+                ev["coverage"]["reentrancy_without_race_detector"] = {"evaluations": sp2.get("evaluations", 0)}
+                for fl in (sp2.get("failures") or []):
+                    violations.append({"kind": "special-exploration", "failing_input": True, "detail": fl["what"], "input": fl.get("input")})
+            else:
+                violations.append({"kind": "harness-crash", "detail": out2[-3000:], "failing_input": False})
     if race:
         reports = []
         for f in sorted(glob.glob(os.path.join(rundir, "race.*"))):
